@@ -538,12 +538,21 @@ type Large struct {
 	KB    int `json:"kb"`    // approximate size of the printed text
 	Pad   int `json:"pad"`   // leading spaces: shifts every character's offset
 	Inner int `json:"inner"` // ASCII filler bytes per element (varies the alignment period)
+	// Shape: "" many short strings; "one-string" a single string literal of
+	// that size; "one-comment" a single comment of that size before two forms.
+	Shape string `json:"shape"`
 }
 
 var largeUnits = []string{"é", "日本", "😀", "aé", "é日😀", "\u2028x", "ß"}
 
 func (l Large) text() string {
 	unit := largeUnits[l.Unit%len(largeUnits)]
+	switch l.Shape {
+	case "one-string":
+		return lisp.String(strings.Repeat("a", l.Inner) + strings.Repeat(unit+"b", l.KB*1024/(len(unit)+1))).String()
+	case "one-comment":
+		return "(list 1)\n; " + strings.Repeat("(x "+unit+") ", l.KB*1024/(len(unit)+5)) + "\n(list 2)"
+	}
 	elem := lisp.String(strings.Repeat("a", l.Inner) + unit).String()
 	n := l.KB*1024/(len(elem)+1) + 1
 	var b strings.Builder
@@ -563,6 +572,13 @@ func checkLarge(l Large, c *vcommon.Ctx) *vcommon.Failure {
 		return nil
 	}
 	body := l.text()
+	if l.Shape != "" {
+		// one token as large as the whole source: whatever the readers decide
+		// (there is a maximum token size), they decide it alike
+		c.Class("shape/" + l.Shape)
+		c.NonTrivial(fmt.Sprintf("%s/%d/%d/%d/%d", l.Shape, l.Unit, l.KB, l.Pad, l.Inner))
+		return checkModes(Src{B: []byte(strings.Repeat(" ", l.Pad) + body)}, nil)
+	}
 	base, _, _, e0, _, _ := readModes([]byte(body))
 	if e0 != nil {
 		return vcommon.Failf("large/reject", "%d KB of printed strings (unit %q, %d filler bytes) are rejected by the strict reader: %v", l.KB, largeUnits[l.Unit%len(largeUnits)], l.Inner, e0)
@@ -592,8 +608,65 @@ func genLarge() *rapid.Generator[Large] {
 			KB:    rapid.SampledFrom([]int{1, 60, 127, 129, 140, 200, 260, 300, 390, 520}).Draw(t, "kb"),
 			Pad:   rapid.IntRange(0, 9).Draw(t, "pad"),
 			Inner: rapid.IntRange(0, 6).Draw(t, "inner"),
+			Shape: rapid.SampledFrom([]string{"", "", "", "one-string", "one-comment"}).Draw(t, "shape"),
 		}
 	})
+}
+
+// ---------- deep values with shared (not cyclic) parts print every occurrence ----------
+
+type DeepShared struct {
+	Depth int    `json:"depth"` // singleton lists wrapped around the shared pair
+	Kind  string `json:"kind"`  // siblings | cousins | thrice
+}
+
+func checkDeepShared(d DeepShared, c *vcommon.Ctx) *vcommon.Failure {
+	if d.Depth < 1 || d.Depth > 400 {
+		return nil
+	}
+	x := lisp.QExpr([]*lisp.LVal{lisp.Int(7), lisp.String("s")})
+	xm := gen.QL(gen.I(7), gen.Str("s"))
+	var v *lisp.LVal
+	var m gen.Val
+	switch d.Kind {
+	case "cousins":
+		v = lisp.QExpr([]*lisp.LVal{lisp.QExpr([]*lisp.LVal{x}), lisp.QExpr([]*lisp.LVal{lisp.Int(1), x})})
+		m = gen.QL(gen.QL(xm), gen.QL(gen.I(1), xm))
+	case "thrice":
+		v = lisp.QExpr([]*lisp.LVal{x, lisp.Int(0), x, x})
+		m = gen.QL(xm, gen.I(0), xm, xm)
+	default:
+		v = lisp.QExpr([]*lisp.LVal{x, x})
+		m = gen.QL(xm, xm)
+	}
+	for i := 0; i < d.Depth; i++ {
+		v = lisp.QExpr([]*lisp.LVal{v})
+		m = gen.QL(m)
+	}
+	text := v.String()
+	c.Class("kind/" + d.Kind)
+	if d.Depth >= 60 && d.Depth <= 70 {
+		c.Class("around-the-printer-guard-depth")
+	}
+	c.NonTrivial(fmt.Sprintf("%s/%d", d.Kind, d.Depth))
+	if strings.Contains(text, "#<") {
+		return vcommon.Failf("deep-shared/unreadable-marker", "an ACYCLIC value (a sub-list occurring %s, %d lists deep) prints with a marker the reader cannot read: %s", d.Kind, d.Depth, clipText(text))
+	}
+	exprs, err := strictRead(text)
+	if err != nil || len(exprs) != 1 {
+		return vcommon.Failf("deep-shared/reject", "printed text of a shared acyclic value is rejected by the reader (%v): %s", err, clipText(text))
+	}
+	if diff := cmpModel(m, exprs[0], "$"); diff != "" {
+		return vcommon.Failf("deep-shared/value", "printed text reads back to a different value: %s\n%s", diff, clipText(text))
+	}
+	return nil
+}
+
+func clipText(s string) string {
+	if len(s) > 400 {
+		return s[:200] + " ... " + s[len(s)-200:]
+	}
+	return s
 }
 
 func TestCheck(t *testing.T) {
@@ -602,5 +675,8 @@ func TestCheck(t *testing.T) {
 		vcommon.S("modes", 80000, 2000000, genSource(), checkModes),
 		vcommon.S("layout", 40000, 1000000, genLayout(), checkLayout),
 		vcommon.S("large", 640, 16000, genLarge(), checkLarge),
+		vcommon.S("deep-shared", 2000, 40000, rapid.Custom(func(t *rapid.T) DeepShared {
+			return DeepShared{Depth: rapid.IntRange(1, 140).Draw(t, "depth"), Kind: rapid.SampledFrom([]string{"siblings", "cousins", "thrice"}).Draw(t, "kind")}
+		}), checkDeepShared),
 	)
 }
